@@ -97,6 +97,8 @@ def replay_failure(failure):
         cmd, needle = "waitgroup_race\n", "waitgroup wait BLOCKED count=0"
     elif "sender-sleeps-although-a-peer-connected" in role:
         cmd, needle = "lb_wait_race\n", "lb wait BLOCKED peers=1"
+    elif "two-sends-succeed-without-recv" in role:
+        cmd, needle = "req_send_race\n", "req_send_race ok=2"
     if cmd is None:
         failure.replayed, failure.replay_note = None, "schedule is a solver witness over the CFAs extracted from MIR; no native scheduler hook for this operation"
         return
